@@ -43,6 +43,7 @@ fn dispatch(name: &str, s: &mut src::ReplaySrc) -> bool {
         "intersection_in_boxes_f32" => intersect::intersection_in_boxes_body::<f32, _>(s),
         "possible_intersection_contract_f64" => divide::possible_intersection_contract_body::<f64, _>(s),
         "possible_intersection_contract_f32" => divide::possible_intersection_contract_body::<f32, _>(s),
+        "divide_segment_n2_instance" => divide::divide_segment_n2_instance_body(s),
         "divide_segment_contract_f64" => divide::divide_segment_contract_body::<f64, _>(s),
         "divide_segment_contract_f32" => divide::divide_segment_contract_body::<f32, _>(s),
         "trivial_result_f64" => queue::trivial_result_body::<f64, _>(s),
